@@ -134,4 +134,23 @@ KnownInert(Active, E) ==
 (* ----------------------------------------------------------------------- *)
 (* C09 (oblivious control flow) *)
 KnownCFRaise(Active, R) == FALSE
+
+(* ----------------------------------------------------------------------- *)
+(* C14 (fixed point) *)
+(* C14-fxp-pow-mod-p: LinCombFxp ** n (n >= 2) reduces the reported representation modulo the field     *)
+(* prime after every multiplication, so a negative power comes back as p - |rep| (and feeds the next  *)
+(* multiplication in that form).                                                                      *)
+KFloorDiv(a, d) == a \div d
+RECURSIVE KPowFx(_, _, _, _)
+KPowFx(A, n, R, P) == IF n <= 1 THEN A ELSE KFloorDiv(A * KPowFx(A, n - 1, R, P), R) % P
+RECURSIVE KPowExact(_, _, _)
+KPowExact(A, n, R) == IF n <= 1 THEN A ELSE KFloorDiv(A * KPowExact(A, n - 1, R), R)
+
+KnownFxp(Active, E, RES, P) ==
+    /\ IsActive(Active, "C14-fxp-pow-mod-p")
+    /\ E.op = "bin" /\ E.name = "pow" /\ TwoScalars(E) /\ KA1(E).k = "fxp" /\ KA2(E).k = "pyint" /\ KA2(E).v >= 2 /\ KA2(E).v <= 6
+    /\ Len(E.res) = 1
+    /\ E.res[1].v = KPowFx(KA1(E).v, KA2(E).v, 2 ^ RES, P)
+    /\ E.res[1].v # KPowExact(KA1(E).v, KA2(E).v, 2 ^ RES)
+    /\ Note("C14-fxp-pow-mod-p", <<KA1(E).v, KA2(E).v>>)
 =============================================================================
